@@ -305,7 +305,25 @@ static Type parse_type(Stage1Parser *p) {
 */
 
 /* Parse type annotation with optional element_type output (for arrays) and type_param_name for generics */
+static Type parse_type_with_element_impl(Stage1Parser *p, Type *element_type_out, char **type_param_name_out, FunctionSignature **fn_sig_out, TypeInfo **type_info_out);
+
+/* Depth-guarded entry point: array<array<...>>, tuple and function types nest
+ * through this function, so it is counted like parse_expression/parse_block. */
 static Type parse_type_with_element(Stage1Parser *p, Type *element_type_out, char **type_param_name_out, FunctionSignature **fn_sig_out, TypeInfo **type_info_out) {
+    p->recursion_depth++;
+    if (p->recursion_depth > MAX_RECURSION_DEPTH) {
+        Token *tok = current_token(p);
+        parser_error(p, tok ? tok->line : 0, tok ? tok->column : 0, "Error at line %d, column %d: Type nesting depth exceeded maximum (%d).\n",
+                tok ? tok->line : 0, tok ? tok->column : 0, MAX_RECURSION_DEPTH);
+        p->recursion_depth--;
+        return TYPE_UNKNOWN;
+    }
+    Type result = parse_type_with_element_impl(p, element_type_out, type_param_name_out, fn_sig_out, type_info_out);
+    p->recursion_depth--;
+    return result;
+}
+
+static Type parse_type_with_element_impl(Stage1Parser *p, Type *element_type_out, char **type_param_name_out, FunctionSignature **fn_sig_out, TypeInfo **type_info_out) {
     Type type = TYPE_UNKNOWN;
     Token *tok = current_token(p);
 
